@@ -220,22 +220,29 @@ static void _interfaces_fini(void) {
 	interface_pos = 0;
 }
 static void _interfaces_init(void) {
+	MPT_STRUCT(named_traits) **types;
 	size_t i;
-	if (!(interface_types = calloc(TypeInterfaceSize, sizeof(*interface_types)))) {
+	if (!(types = calloc(TypeInterfaceSize, sizeof(*types)))) {
 		return;
 	}
 	for (i = 0; i < MPT_arrsize(core_interfaces); i++) {
-		MPT_STRUCT(named_traits) *elem = interface_types[i];
+		MPT_STRUCT(named_traits) *elem;
 		
-		if (elem || !(elem = malloc(sizeof(*elem) + sizeof(pointer_traits)))) {
-			continue;
+		/* no table without all builtin interfaces */
+		if (!(elem = malloc(sizeof(*elem) + sizeof(pointer_traits)))) {
+			while (i--) {
+				free(types[i]);
+			}
+			free(types);
+			return;
 		}
 		*((const void **) &elem->traits) = memcpy(elem + 1, &pointer_traits, sizeof(pointer_traits));
 		*((const char **) &elem->name) = core_interfaces[i].name;
 		*((MPT_TYPE(type) *) &elem->type) = core_interfaces[i].type;
 		
-		interface_types[i] = elem;
+		types[i] = elem;
 	}
+	interface_types = types;
 	interface_pos = MPT_ENUM(_TypeInterfaceAdd) - MPT_ENUM(_TypeInterfaceBase);
 	
 	atexit(_interfaces_fini);
@@ -369,6 +376,11 @@ extern const MPT_STRUCT(named_traits) *mpt_interface_traits(MPT_TYPE(type) type)
 	}
 	if (!interface_types) {
 		_interfaces_init();
+		/* table could not be created */
+		if (!interface_types) {
+			errno = ENOMEM;
+			return 0;
+		}
 	}
 	pos = type - MPT_ENUM(_TypeInterfaceBase);
 	
@@ -698,6 +710,11 @@ extern const MPT_STRUCT(named_traits) *mpt_type_interface_add(const char *name)
 	
 	if (!interface_types) {
 		_interfaces_init();
+		/* table could not be created */
+		if (!interface_types) {
+			errno = ENOMEM;
+			return 0;
+		}
 	}
 	
 	if (name) {
